@@ -69,22 +69,23 @@ Proof.
     intros p Hp; apply Nat.eqb_neq in Hp; now rewrite Hp.
 Qed.
 
-(* Static shape of Node.recv_loop (read from its source by harness/gen_c18.py, fail-closed): the only
-   operations on the node's state are the ones [step] models - the exit test, the receive on the peer's
-   own socket, ONE membership test, and then EXACTLY ONE statement in each branch: the handler call, or
-   the single append of (peer_no, command, payload).  In particular the enqueue branch neither reads
-   (len, iteration) nor modifies the shared queue apart from that append, so the (A) step of the model
-   is one atomic deque operation and nothing else. *)
+(* Static footprint of Node.recv_loop on the node's state (read from its source by harness/gen_c18.py and NORMALISED there:
+   every occurrence of self.<attr> in recv_loop and in the private Node methods it calls - inlined transitively - reduced to
+   its access path and use, as a sorted multiset).  The only operations on the node's state are the ones [step] models: the
+   exit test, the receive on the peer's own socket, ONE membership test, ONE handler call, ONE append to the queue, the close
+   of the peer's own socket.  In particular nothing reads (len, iteration) or modifies the shared queue apart from that
+   append, and there is no node-wide attribute beyond these - so the (A) step of the model is one atomic deque operation.
+   Renamed locals, a negated test with an early `continue`, helper methods and logging do not change this table. *)
 Definition str (s : Coq.Strings.String.string) : bytes := Coq.Strings.String.list_byte_of_string s.
 Import Coq.Strings.String.
 Local Open Scope string_scope.
 Definition expected_recv_loop_ops : list (Coq.Strings.String.string * Coq.Strings.String.string) :=
-  [ ("while",         "not self._peer_threads[peer_no].exit_event.is_set()");
-    ("while/try",     "start_bytes, command, payload = recv_msg(self._peer_sockets[peer_no])");
-    ("while/if",      "command in self._registered_commands_to_handle");
-    ("while/if/then", "self.handle_command(peer_no, command, payload)");
-    ("while/if/else", "self._msg_queue.append((peer_no, command, payload))");
-    ("top",           "self._peer_sockets[peer_no].close()") ].
+  [ ("_msg_queue.append()",                  "1");
+    ("_peer_sockets[] arg:recv_msg",         "1");
+    ("_peer_sockets[].close()",              "1");
+    ("_peer_threads[].exit_event.is_set()",  "1");
+    ("handle_command()",                     "1");
+    ("in _registered_commands_to_handle",    "1") ].
 
 Theorem gen_recv_loop_shape :
   Bits.Gen.NodeGen.recv_loop_ops = map (fun p => (str (fst p), str (snd p))) expected_recv_loop_ops.
